@@ -95,6 +95,21 @@ func C17(c *core.Ctx) {
 			files = append(files, p)
 			desc = append(desc, asStr(fm["kind"])+":"+asStr(fm["text"]))
 		}
+		// every third point: the same compose files as the documents of one multi-document file (the last document that
+		// sets a name decides, as the last file does)
+		if n%3 == 0 && len(files) > 1 {
+			var docs []string
+			for _, f := range files {
+				b, _ := os.ReadFile(f)
+				docs = append(docs, string(b))
+			}
+			multi := filepath.Join(dir, "multi.yaml")
+			if err := os.WriteFile(multi, []byte(strings.Join(docs, "---\n")), 0o644); err != nil {
+				return err
+			}
+			files = []string{multi}
+			desc = append(desc, "(as documents of one file)")
+		}
 		if de.Set {
 			_ = os.WriteFile(filepath.Join(dir, ".env"), []byte("COMPOSE_PROJECT_NAME="+de.V+"\n"), 0o644)
 		}
